@@ -404,7 +404,7 @@ class Analyzer:
     return self.sites
 
 
-FACTORY_MARKERS = {'apply', 'init', 'client_init', 'client_step', 'client_final'}
+FACTORY_MARKERS = {'apply', 'init', 'client_init', 'client_step', 'client_final', 'run'}
 DONATING = {}   # name -> donated positions, for `name = jax.jit(f, donate_argnums=...)` inside the function being analysed
 
 
